@@ -457,7 +457,24 @@ func ruleSeqhash(c *Ctx, prop string) {
 		why := ""
 		if mt.over != x {
 			st = unknown
-			if len(opaqueParts(parseOrNil(mt.over), vocabOf(x))) == 0 && typeEvaluable {
+			if ot := parseOrNil(mt.over); ot != nil && ot.contains(func(y *Term) bool {
+				if y.Op != "phi" || len(y.Args) < 2 {
+					return false
+				}
+				// the text merged with its own upper-cased form: normalised only when some test says so
+				for _, e := range y.Args {
+					if (e.isCall("strings.ToUpper") || e.isCall("strings.ToLower")) && len(e.Args) == 1 {
+						for _, e2 := range y.Args {
+							if e2 != e && e2.String() == e.Args[0].String() {
+								return true
+							}
+						}
+					}
+				}
+				return false
+			}) {
+				why = "the letters checked are those of " + short(mt.over) + ": the text is upper-cased only under a condition; which texts skip it is not decided"
+			} else if len(opaqueParts(parseOrNil(mt.over), vocabOf(x))) == 0 && typeEvaluable {
 				st, why = broken, "the letters checked are those of "+short(mt.over)+"; the string that is hashed is "+x+": a letter can be validated in one spelling and hashed in another"
 			} else {
 				why = "letters checked are those of " + short(mt.over)
